@@ -73,3 +73,68 @@ void h_B_c3d_point_name(void)
   }
   VF_CANARY();
 }
+
+/* ---------------------------------------------------------------- c3d::analog(const std::string& name): one empty channel of that
+ * name (value 0) per sub-frame (the header's sub-frame count) per stored frame, then the column adder analog(frames);
+ * without frames the name is pending.  Bound: at most 3 stored frames, 3 sub-frames. */
+const struct Channel *vf_an_chan; const struct SubFrame *vf_an_sub; const struct Analogs *vf_an_analogs;
+int vf_an_named_at, vf_an_zeroed_at, vf_an_appended_at; size_t vf_an_subs; _Bool vf_an_sub_ok; int vf_an_last_sub_at;
+void stuba_Channel_ctor(struct Channel *self, const vf_string *name) { vf_an_chan = self; }
+void stuba_Channel_name(struct Channel *self, const vf_string *name) { if (self == vf_an_chan) { vf_pn_name = name; vf_an_named_at = ++vf_step; } }
+void stuba_Channel_data(struct Channel *self, float v) { if (self == vf_an_chan && v == 0.0f) vf_an_zeroed_at = ++vf_step; }
+void stuba_SubFrame_ctor(struct SubFrame *self) { vf_an_sub = self; }
+void stuba_SubFrame_append(struct SubFrame *self, const struct Channel *c, size_t idx)
+{
+  __CPROVER_assert(self == vf_an_sub && c == vf_an_chan && idx == (size_t)-1, "the empty channel is appended to the dummy sub-frame");
+  vf_an_appended_at = ++vf_step;
+}
+struct Analogs *stuba_Frame_analogs(const struct Frame *self) { return (struct Analogs *)vf_an_analogs; }
+void stuba_Analogs_append(struct Analogs *self, const struct SubFrame *s, size_t idx)
+{
+  if (self != vf_an_analogs || s != vf_an_sub || idx != (size_t)-1 || vf_an_appended_at == 0) vf_an_sub_ok = 0;
+  ++vf_an_subs; vf_an_last_sub_at = ++vf_step;
+}
+void stuba_push_back(vf_vec_Frame *v, const struct Frame *f)
+{
+  if (f != vf_pn_frame) vf_pn_push_ok = 0;
+  vf_pn_vec = v;
+  ++vf_pn_pushes;
+}
+void stuba_update(struct c3d *self, const vf_vec_string *np, const vf_vec_string *na)
+{
+  ++vf_pn_update_calls; vf_pn_upd_points = np->size; vf_pn_upd_analogs = na->size;
+  if (na->size == 1) { vf_pn_upd_len = na->data[0].size; vf_pn_upd_c0 = na->data[0].size ? na->data[0].data[0] : 0; }
+}
+
+void h_B_c3d_analog_name(void)
+{
+  struct c3d *self = (struct c3d *)vf_alloc(sizeof(*self));
+  self->_data = (struct Data *)vf_alloc(sizeof(struct Data));
+  self->_header = (struct Header *)vf_alloc(sizeof(struct Header));
+  size_t F = nondet_size_t(), S = nondet_size_t();
+  __CPROVER_assume(F <= 3 && S <= 3);
+  self->_header->_nbAnalogByFrame = S;
+  self->_data->_frames.size = F;
+  self->_data->_frames.data = (struct Frame *)vf_alloc(3 * sizeof(struct Frame));
+  vf_an_analogs = (struct Analogs *)vf_alloc(sizeof(struct Analogs));
+  vf_string *name = (vf_string *)vf_alloc(sizeof(*name));
+  size_t m = nondet_size_t();
+  __CPROVER_assume(m <= 2);
+  name->size = m; name->data = (char *)vf_alloc(3); name->data[m] = 0;
+  vf_step = 0; vf_pn_pushes = 0; vf_pn_push_ok = 1; vf_pn_column_calls = 0; vf_pn_update_calls = 0; vf_an_subs = 0; vf_an_sub_ok = 1;
+  vf_an_named_at = vf_an_zeroed_at = vf_an_appended_at = vf_an_last_sub_at = vf_pn_column_at = 0; vf_exc = 0;
+  c3d__analog__str(self, name);
+  /*@ C06 C05 : analog_name.nothrow-by-itself */ __CPROVER_assert(vf_exc == 0, "declaring by name does not throw by itself");
+  if (F == 0) {
+    /*@ C05 C06 : analog_name.without-frames-the-name-is-pending */
+    __CPROVER_assert(vf_pn_update_calls == 1 && vf_pn_column_calls == 0 && vf_pn_upd_points == 0 && vf_pn_upd_analogs == 1 &&
+                     vf_pn_upd_len == m && (m == 0 || vf_pn_upd_c0 == name->data[0]), "updateParameters({}, {name}) and nothing else");
+  } else {
+    /*@ C06 C05 : analog_name.one-zero-channel-of-that-name-per-subframe-per-stored-frame */
+    __CPROVER_assert(vf_pn_name == name && 0 < vf_an_named_at && 0 < vf_an_zeroed_at && vf_an_named_at < vf_an_appended_at && vf_an_zeroed_at < vf_an_appended_at &&
+                     vf_an_sub_ok && vf_an_subs == S && vf_pn_push_ok && vf_pn_pushes == F && vf_pn_column_calls == 1 && vf_pn_pushes_at_column == F &&
+                     vf_an_last_sub_at < vf_pn_column_at && vf_pn_update_calls == 0,
+                     "channel named and zeroed, put into a sub-frame, the sub-frame added once per header sub-frame, the frame pushed once per stored frame, then the column adder");
+  }
+  VF_CANARY();
+}
